@@ -40,9 +40,11 @@ def opBB (args : List String) (impl : String) : String × String :=
   match args with
   | [op, a, b] =>
     (match op with
-     | "and" | "or" | "xor" =>
+     | "and" | "or" | "xor" | "andassign" | "orassign" | "xorassign" =>
        (match parseBB a, parseBB b with
         | some x, some y =>
+          -- the compound-assignment forms of the implementation have the same meaning as the by-value ones
+          let op := match op with | "andassign" => "and" | "orassign" => "or" | "xorassign" => "xor" | o => o
           let m := match op with | "and" => x &&& y | "or" => x ||| y | _ => x ^^^ y
           let s := match op with
             | "and" => (setOf x).filter (setOf y).contains
